@@ -341,6 +341,19 @@ pub fn gen_c03(rng: &mut Rng, tier: Tier) -> C03Plan {
         cfg.mb_weights[0] += 12;
     }
     let (fl, w, h) = flavour_for(rng, &cfg, w, h);
+    // Standard mode, plain-PTYPE histories: in a third of them the INTRA pictures carry a
+    // PLUSPTYPE header (same fixed format) with optional modes switched on that do not
+    // affect an intra picture (unrestricted vectors, advanced prediction).  The plain
+    // PTYPE of the following predicted pictures switches them off again (H.263 5.1.3 /
+    // 5.1.4), so those pictures are baseline pictures and the model applies unchanged.
+    let fl_intra: Option<Flavour> = match &fl {
+        Flavour::StdPtype { fmt, .. } if rng.chance(1, 3) => Some(Flavour::StdPlus {
+            umv_unlimited: false,
+            layers: None,
+            hdr: Some(PlusHdr { fmt: *fmt, umv: 1 + rng.below(2) as u8, pcf: None, par: 1, epar: (0, 0), modes: if rng.bool() { 0b0_1000_0000 } else { 0 }, sss: 0, type_code: None, mpp_bits: 0, cpm: None }),
+        }),
+        _ => None,
+    };
     let mut plan = C03Plan { note: String::new(), opts, pics: Vec::new(), steps: Vec::new() };
     let mut tr = rng.byte();
     let start_with_p = rng.chance(1, 16);
@@ -366,7 +379,7 @@ pub fn gen_c03(rng: &mut Rng, tier: Tier) -> C03Plan {
     };
     if !start_with_p {
         tr = tr.wrapping_add(1);
-        let flq = requalify(rng, &fl, w, h);
+        let flq = fl_intra.clone().unwrap_or_else(|| requalify(rng, &fl, w, h));
         let i = gen_textured_intra(rng, &cfg, flq, w, h, tr);
         let (pp, _) = PlanPic::from_spec(i, vec![], "textured intra picture");
         let (chunks, eintr) = delivery(rng, pp.bytes.len());
@@ -388,7 +401,7 @@ pub fn gen_c03(rng: &mut Rng, tier: Tier) -> C03Plan {
                 plan.steps.push(Step::Rejected { pic: pi });
             }
             3 => {
-                let flq = requalify(rng, &fl, w, h);
+                let flq = fl_intra.clone().unwrap_or_else(|| requalify(rng, &fl, w, h));
         let i = gen_textured_intra(rng, &cfg, flq, w, h, tr);
                 let (pp, _) = PlanPic::from_spec(i, vec![], "textured intra picture");
                 let (chunks, eintr) = delivery(rng, pp.bytes.len());
